@@ -313,6 +313,8 @@ fn run_c12_tactical(ctx: &mut Ctx) {
                 3 => placement_promo().prop_map(Start::Placement),
                 3 => placement_near_mate().prop_map(Start::Placement),
                 4 => placement_heavy_net().prop_map(Start::Placement),
+                2 => placement_castle().prop_map(Start::Placement),
+                2 => placement_ep().prop_map(Start::Placement),
                 1 => (17usize..22).prop_map(Start::Corpus),
             ];
             (start, proptest::collection::vec(any::<u16>(), 0..5)).prop_map(|(start, choices)| RepRecipe { walk: WalkRecipe { start, choices }, cycles: 0, c1: 0, c2: 0, tail_cut: 0 })
@@ -557,7 +559,7 @@ pub fn mate_position(r: &MateRecipe) -> Option<Pos> {
     }
 }
 fn mate_strategy() -> impl Strategy<Value = MateRecipe> {
-    (prop_oneof![3 => placement_near_mate(), 1 => placement_heavy_net()], 0u8..3, any::<u16>(), proptest::collection::vec(any::<u16>(), 0..2)).prop_map(|(base, variant, c, pre)| MateRecipe { base, variant, c, pre })
+    (prop_oneof![6 => placement_near_mate(), 2 => placement_heavy_net(), 1 => placement_castle(), 1 => placement_ep()], 0u8..3, any::<u16>(), proptest::collection::vec(any::<u16>(), 0..2)).prop_map(|(base, variant, c, pre)| MateRecipe { base, variant, c, pre })
 }
 fn mate_case_moves(r: &MateRecipe) -> Option<(Pos, Vec<Move>)> {
     let p = mate_position(r)?;
